@@ -42,8 +42,13 @@ MALFORMED = ["no_path", "no_version", "no_crate", "bad_req", "empty_req", "path_
 MARKER = "marker_zz9"
 
 
-def ext_value(req, params, mal=None):
-    x = {"crate": CRATE, "version": req, "path": IDENT + "::sub::Thing"}
+# the part of the path after the crate identifier: the crate identifier may RECUR there, as a whole segment or inside one; a rename
+# concerns the leading segment only
+TAILS = {None: "sub::Thing", "seg": IDENT + "::Thing", "within": "my_" + IDENT + "_sub::Thing"}
+
+
+def ext_value(req, params, mal=None, tail=None):
+    x = {"crate": CRATE, "version": req, "path": IDENT + "::" + TAILS[tail]}
     if params == "1i":
         x["parameters"] = [{"type": "string"}]
     elif params == "1r":
@@ -92,8 +97,8 @@ def ext_value(req, params, mal=None):
     return x
 
 
-def build_doc(site, req, params, mal, params2=None):
-    thing = {"type": "object", "properties": {MARKER: {"type": "string"}}, "required": [MARKER], "x-rust-type": ext_value(req, params, mal)}
+def build_doc(site, req, params, mal, params2=None, tail=None):
+    thing = {"type": "object", "properties": {MARKER: {"type": "string"}}, "required": [MARKER], "x-rust-type": ext_value(req, params, mal, tail)}
     defs = {"Gizmo": {"type": "object", "properties": {"g": {"type": "integer"}}},
             "GizmoC": {"type": "object", "properties": {"back": {"$ref": "#/definitions/User"}, "n": {"type": "integer"}}},
             "GizmoX": {"type": "object", "properties": {"gx": {"type": "integer"}},
@@ -146,7 +151,7 @@ def build_doc(site, req, params, mal, params2=None):
     return {"definitions": defs}
 
 
-def mk(cfg, policy, pair, rename, params, site, mal=None, params2=None):
+def mk(cfg, policy, pair, rename, params, site, mal=None, params2=None, tail=None):
     req, ver, sat = pair
     settings = {"unknown_crates": policy}
     if cfg != "absent":
@@ -155,7 +160,7 @@ def mk(cfg, policy, pair, rename, params, site, mal=None, params2=None):
             spec["rename"] = rename
         settings["crates"] = {CRATE: spec}
     c = {"family": "table", "cfg": cfg, "policy": policy, "req": req, "ver": ver, "sat": sat, "rename": rename if cfg != "absent" else None,
-         "params": params, "params2": params2, "site": site, "mal": mal, "settings": settings, "doc": build_doc(site, req, params, mal, params2)}
+         "params": params, "params2": params2, "site": site, "mal": mal, "tail": tail, "settings": settings, "doc": build_doc(site, req, params, mal, params2, tail)}
     c["key"] = key_of([c["settings"], c["doc"]])
     return c
 
@@ -182,6 +187,15 @@ def cases(tier, seed):
                         if pa != pb:
                             for site in ("inline2", "def_inline", "vec_inline"):
                                 add(mk(cfg, policy, ("^1.2.3", "1.2.4", T), rename, pa, site, None, pb))
+    # the crate identifier recurring later in the path (whole segment / inside a segment) under every rename
+    for tail in ("seg", "within"):
+        for cfg in CFGS:
+            for policy in POLICIES:
+                for pair in (("^1.2.3", "1.2.4", T), ("^1.2.3", "2.0.0", F)):
+                    for rename in (RENAMES if cfg != "absent" else [None]):
+                        for params in ("0", "1x"):
+                            for site in ("member", "def_diff", "def_suffix", "inline", "vec"):
+                                add(mk(cfg, policy, pair, rename, params, site, None, None, tail))
     # malformed extensions: generated from the schema whatever the settings
     for mal in MALFORMED:
         for cfg in CFGS:
@@ -193,7 +207,8 @@ def cases(tier, seed):
 
 def expected_path(c, which="params"):
     first = (c["rename"].replace("-", "_") if c["rename"] else IDENT)
-    p = "::" + first + ("::sub::BigThing" if c.get("site") == "def_suffix" else "::sub::Thing")
+    tail = TAILS[c.get("tail")]
+    p = "::" + first + "::" + (tail.replace("::Thing", "::BigThing") if c.get("site") == "def_suffix" else tail)
     c = dict(c, params=c[which])
     if c["params"] == "1i":
         p += "<::std::string::String>"
@@ -243,7 +258,7 @@ def execute(cases_, tier, seed):
         res.states += 1
         res.transitions += 1
         res.nontrivial += 1
-        feats = {k: c.get(k) for k in ("cfg", "policy", "req", "ver", "rename", "params", "params2", "site", "mal")}
+        feats = {k: c.get(k) for k in ("cfg", "policy", "req", "ver", "rename", "params", "params2", "site", "mal", "tail")}
         op = (a.get("ops") or [{}])[0]
         if a.get("abort") or op.get("status") != "ok" or (a.get("render") or {}).get("status") != "ok":
             res.violations.append(Violation(c["key"], "ingest-failed", "x-rust-type case failed to ingest/render: %s" % (op,), c,
@@ -324,7 +339,7 @@ def execute(cases_, tier, seed):
     res.extra["semver_pairs_crosschecked"] = len(PAIRS)
     res.samples = [{"settings": c["settings"], "ext": c["doc"]["definitions"].get("Thing", c["doc"]["definitions"].get("Other", {})).get("x-rust-type"),
                     "site": c["site"]} for c in cases_[:: max(1, len(cases_) // 4)]][:4]
-    res.bound = ("tier=%s: %s of cfg(4) x policy(3) x %d semver pairs x rename(3) x params(7) x site(7); malformed(12) x cfg x policy x sites"
+    res.bound = ("tier=%s: %s of cfg(4) x policy(3) x %d semver pairs x rename(3) x params(7) x site(9); recurring-crate-identifier path tails(2) x cfg x policy x rename x params(2) x site(5); malformed(15) x cfg x policy x sites"
                  % (tier, "full product", len(PAIRS if tier != "quick" else QUICK_PAIRS)))
     res.assumptions = ["expected semver column hand-written from Cargo's documented semantics, cross-checked against the semver crate (disagreement = exit 2)"]
     if not res.violations and (len(outcomes) < 2 and len(cases_) > 10):   # a subject that breaks everything is reported through its violations, not as vacuity
